@@ -915,7 +915,7 @@ impl<H: HB> Probe<H> for BulkMutationPrograms {
                                 1 => true,
                                 _ => i % 2 == 1,
                             };
-                            ImStep { back, prio: w, payload: None }
+                            ImStep { back, prio: w, payload: None, skip: 0 }
                         })
                         .collect();
                     ops.push(Op::IterMut { steps, end: End::Drop, via_ref: false });
@@ -1001,7 +1001,7 @@ impl CloneIndependence {
             return Err(format!("a clone is arranged differently from its source: {:?} vs {:?}", c0.snap(), before));
         }
         let mut extra = core_ops(&self.universe, &self.prios, Q::DOUBLE);
-        extra.push(Op::IterMut { steps: vec![ImStep { back: false, prio: Some(self.prios[0]), payload: Some(9) }], end: End::Drop, via_ref: false });
+        extra.push(Op::IterMut { steps: vec![ImStep { back: false, prio: Some(self.prios[0]), payload: Some(9), skip: 0 }], end: End::Drop, via_ref: false });
         extra.push(Op::Retain(m.keys().copied().take(1).collect()));
         extra.push(Op::Drain { front: 1, back: 0, end: End::Drop });
         extra.push(Op::Reserve(100));
@@ -1144,7 +1144,7 @@ impl CapacityTwin {
         }
         conts1.push(Op::Retain(vec![self.universe[0]]));
         conts1.push(Op::Extend(vec![(self.universe[0], 0, self.prios[0])], Hint { lo: 0, hi: None }));
-        conts1.push(Op::IterMut { steps: vec![ImStep { back: false, prio: Some(self.prios[self.prios.len() - 1]), payload: None }], end: End::Drop, via_ref: false });
+        conts1.push(Op::IterMut { steps: vec![ImStep { back: false, prio: Some(self.prios[self.prios.len() - 1]), payload: None, skip: 0 }], end: End::Drop, via_ref: false });
         let mut cases = 0;
         for cap in &caps {
             let mut t = q.clone();
